@@ -4,6 +4,7 @@
 //	H <β> <ops>            | <item>;<item>;...#<shape>
 //	LP <β> <n> <hint>      | <limit>
 //	LR <β> <n0> <n1> <hint> | <rle>
+//	B <β> <macros>         | <items>                 big trees, see scale.go
 //
 // ops (';'-separated)  a<k> Add  p<k> Replace  r<k> Remove  c Clear  g<k> Get (counting comparator
 // calls)  n<k.k.k> replace the tree by stree.New(β, cmp, keys...)  ("n" alone: no keys)
@@ -178,6 +179,13 @@ func exec(in string) (res string) {
 				return
 			}
 			res = history(β, f[2])
+		case f[0] == "B" && len(f) == 3:
+			β, ok := atoi(f[1])
+			if !ok {
+				res = "?"
+				return
+			}
+			res = execBig(β, f[2])
 		case f[0] == "LP" && len(f) == 4:
 			β, ok1 := atoi(f[1])
 			n, ok2 := atoi(f[2])
@@ -626,12 +634,13 @@ func genSweep(g *tr.G) {
 }
 
 func main() {
-	tr.Main("C02: histories that stress depth (sorted, reverse, two zig-zags, block and random insertion orders, each alone and followed by ascending/descending/random/alternating removals down to empty or to a fraction, then regrowth) at every β in {0,1,250,500,999}; New from every n up to a bound (with duplicates) and from large n, followed by adversarial growth, Clone and Clear; phase-structured random histories at random β<1000; every insertion order of up to 5 (quick) / 7 (thorough) keys and every string of up to 4/5 Add/Remove ops over 4 keys. After every op the height is measured through Root/Left/Right cursors and compared with the model; Get probes count comparator calls. Sweep: the float depth limit VerifHeightLimit(β,n) for every n<=4096 (β stride 7 quick / all β thorough, limit values capped for the bignum arithmetic), windows up to 2^20 (thorough) and 2^e-1,2^e,2^e+1 up to e=46. A history is non-trivial when it has at least 8 ops; distinct = distinct input lines.",
+	tr.Main("C02: histories that stress depth (sorted, reverse, two zig-zags, block and random insertion orders, each alone and followed by ascending/descending/random/alternating removals down to empty or to a fraction, then regrowth) at every β in {0,1,250,500,999}; New from every n up to a bound (with duplicates) and from large n, followed by adversarial growth, Clone and Clear; phase-structured random histories at random β<1000; every insertion order of up to 5 (quick) / 7 (thorough) keys and every string of up to 4/5 Add/Remove ops over 4 keys. After every op the height is measured through Root/Left/Right cursors and compared with the model; Get probes count comparator calls. Scale stream (B lines, macro operations over arithmetic key sequences): trees of 2^k-1, 2^k, 2^k+1 keys for k = 3..12 and random sizes up to 8192 at beta in {0,1,50,155,250,500,800,880,950,999,1000} in rotation, grown by Add or Replace in ascending/descending/outside-in/inside-out/random order or built by New from sorted/unsorted/duplicated keys, drained to 1/2..1/16 by Remove (the peak stays), regrown adversarially, drained to empty by Remove (the peak restarts), regrown; Clone then divergent edits (the drained side regrown adversarially); after EVERY call: result, Len, the height (one pass over the node pointers by a hook), the comparisons of Get(key just used) and of Get(deepest key); about nine checkpoints per macro give, for every live tree, the height measured through Root/Left/Right/Up cursors and a digest of the shape. Sweep: the float depth limit VerifHeightLimit(β,n) for every n<=4096 (β stride 7 quick / all β thorough, limit values capped for the bignum arithmetic), windows up to 2^20 (thorough) and 2^e-1,2^e,2^e+1 up to e=46. A history is non-trivial when it has at least 8 ops; distinct = distinct input lines.",
 		exec, func(g *tr.G) {
 			if g.Prop != "C02" {
 				return
 			}
 			genHistories(g)
+			genScale(g)
 			genSweep(g)
 		})
 }
